@@ -57,16 +57,14 @@ type SessionManager struct {
 }
 
 func initSessionManager(gettyConfig *config.Config) {
-	if sessionManager == nil {
-		onceSessionManager.Do(func() {
-			sessionManager = &SessionManager{
-				allSessions:    sync.Map{},
-				serverSessions: sync.Map{},
-				gettyConf:      gettyConfig,
-			}
-			sessionManager.init()
-		})
-	}
+	onceSessionManager.Do(func() {
+		sessionManager = &SessionManager{
+			allSessions:    sync.Map{},
+			serverSessions: sync.Map{},
+			gettyConf:      gettyConfig,
+		}
+		sessionManager.init()
+	})
 }
 
 func (g *SessionManager) init() {
